@@ -141,6 +141,26 @@ pub fn run(ctx: &Ctx) -> i32 {
         f.tail = vec![1, 2, 3, 4, 5];
         add("b1-trailing".into(), &f);
     }
+    // the deprecated 16-bit chunk count is stale (smaller than the 32-bit count, which per the format
+    // description is the one to use whenever it is non-zero)
+    for (tag, which) in [("zero", 0usize), ("one", 1), ("n-1", 2), ("all-frames-zero", 3)] {
+        for (bn, base) in [("b1", gen::b1()), ("b2", gen::b2())] {
+            let mut f = base;
+            let last = f.frames.len() - 1;
+            let n = f.frames[last].chunks.len();
+            match which {
+                0 => f.frames[last].old_count = Some(0),
+                1 => f.frames[last].old_count = Some(1),
+                2 => f.frames[last].old_count = Some(n.saturating_sub(1) as u16),
+                _ => {
+                    for fr in f.frames.iter_mut() {
+                        fr.old_count = Some(0);
+                    }
+                }
+            }
+            add(format!("{}-stale-old-count-{}", bn, tag), &f);
+        }
+    }
     // frames without chunks: a bare 16-byte frame header as the last thing in the file
     {
         let mut f = gen::b1();
@@ -189,15 +209,23 @@ pub fn run(ctx: &Ctx) -> i32 {
             files.push((name, bytes, end, spans));
         }
     }
-    // sanity (machinery): every complete file loads
-    for (n, b, _, _) in &files {
-        if !matches!(load(b), Loaded::Ok(_)) {
-            eprintln!("machinery error: complete file {} does not load", n);
-            return 2;
+    // premise: the complete file loads.  A complete generated file that is refused is the business of
+    // C01 / C07 (it is reported there); here it is skipped with a note.  If more than a tenth of the
+    // files are refused the run says nothing and is a machinery error.
+    let before = files.len();
+    files.retain(|(n, b, _, _)| {
+        let ok = matches!(load(b), Loaded::Ok(_));
+        if !ok {
+            ctx.note(format!("{} skipped: the complete file does not load on this tree (not a C13 matter)", n));
         }
+        ok
+    });
+    if files.len() * 10 < before * 9 {
+        eprintln!("machinery error: {} of {} complete files do not load", before - files.len(), before);
+        return 2;
     }
     let total: usize = files.iter().map(|(n, _, e, sp)| if n == "big" && !thorough { (0..*e).filter(|k| k % 257 == 0 || k % 4096 < 24 || k % 4096 >= 4072 || sp.iter().any(|(a, b)| k.abs_diff(*a) < 24 || k.abs_diff(*b) < 24)).count() } else { *e }).sum();
-    ctx.family("prefixes", total as u64, &format!("every strict prefix bytes[..k], 0 <= k < end of last frame, of {} files: b1..b4, D1 in three formats, one file per chunk kind with that chunk last, 2- and 3-frame files whose last chunk is a 5..80 KB raw / zlib / stored-zlib / tilemap cel, user-data text, palette, tileset, slice or tags chunk that an earlier frame holds too, b1 with trailing bytes / both count styles / a tail, and the corpus files up to 8 KB, plus `big` (every chunk > 64 KiB; quick: cuts near chunk / 4 KiB boundaries and every 257th offset, thorough: every offset){}", files.len(), if thorough { " plus one 525 KB corpus file at every offset" } else { "" }), true);
+    ctx.family("prefixes", total as u64, &format!("every strict prefix bytes[..k], 0 <= k < end of last frame, of {} files: b1..b4, D1 in three formats, one file per chunk kind with that chunk last, 2- and 3-frame files whose last chunk is a 5..80 KB raw / zlib / stored-zlib / tilemap cel, user-data text, palette, tileset, slice or tags chunk that an earlier frame holds too, b1 with trailing bytes / both count styles / a tail, b1 and b2 with a stale (smaller) deprecated 16-bit chunk count beside the 32-bit one, and the corpus files up to 8 KB, plus `big` (every chunk > 64 KiB; quick: cuts near chunk / 4 KiB boundaries and every 257th offset, thorough: every offset){}", files.len(), if thorough { " plus one 525 KB corpus file at every offset" } else { "" }), true);
     for (name, bytes, end, spans) in &files {
         // `big` (400 KB) in the quick tier: every cut within 24 bytes of a chunk boundary, of a
         // 4 KiB / 64 KiB multiple, and every 257th offset; all offsets in the thorough tier
